@@ -182,8 +182,8 @@ def install(M):
     def str_get(I, s, r):
         s = as_str(s)
         a, b = range_bounds(r, s.len())
-        conc(I, a, 'str index')
-        conc(I, b, 'str index')
+        a = conc(I, a, 'str index')
+        b = conc(I, b, 'str index')
         if not (0 <= a <= b <= s.len()) or not s.is_boundary(a) or not s.is_boundary(b):
             return NONE()
         return Some(s.sub(a, b))
@@ -248,7 +248,7 @@ def install(M):
     def s_insert_str(I, st, idx, s):
         st = deref(st)
         cur = st.as_str()
-        conc(I, idx, 'insert index')
+        idx = conc(I, idx, 'insert index')
         if not cur.is_boundary(idx):
             raise Panic('String::insert_str: not a char boundary')
         k = cur.b.idx[idx]
@@ -258,7 +258,7 @@ def install(M):
     def s_insert(I, st, idx, ch):
         st = deref(st)
         cur = st.as_str()
-        conc(I, idx, 'insert index')
+        idx = conc(I, idx, 'insert index')
         if not cur.is_boundary(idx):
             raise Panic('String::insert: not a char boundary')
         k = cur.b.idx[idx]
@@ -308,7 +308,7 @@ def install(M):
     pat(r'^<.* as Iterator>::last$', it_last)
 
     def it_nth(I, it, n):
-        conc(I, n, 'nth')
+        n = conc(I, n, 'nth')
         r = NONE()
         for _ in range(n + 1):
             r = I.iter_next(it)
@@ -377,7 +377,7 @@ def install(M):
 
     def s_chunks(I, s, n):
         l, a, b = as_list(s)
-        conc(I, n, 'chunk size')
+        n = conc(I, n, 'chunk size')
         if n == 0:
             raise Panic('chunk size must be non-zero')
         return ChunksIt(l, a, b, n)
@@ -397,7 +397,7 @@ def install(M):
 
     def s_split_at(I, s, mid):
         l, a, b = as_list(s)
-        conc(I, mid, 'split_at')
+        mid = conc(I, mid, 'split_at')
         if mid > b - a:
             raise Panic('mid > len in split_at')
         return Agg('()', [Slice(l, a, a + mid), Slice(l, a + mid, b)])
@@ -407,12 +407,12 @@ def install(M):
     pat(r'^Vec::clear$', lambda I, v: deref(v).l.clear())
 
     def v_truncate(I, v, n):
-        conc(I, n, 'truncate')
+        n = conc(I, n, 'truncate')
         del deref(v).l[n:]
     pat(r'^Vec::truncate$', v_truncate)
 
     def v_remove(I, v, i):
-        conc(I, i, 'remove index')
+        i = conc(I, i, 'remove index')
         l = deref(v).l
         if not 0 <= i < len(l):
             raise Panic('removal index out of bounds')
@@ -622,7 +622,7 @@ def install(M):
     reg('core::f64::<impl f64>::abs', f_abs)
 
     def f_powi(I, x, n):
-        conc(I, n, 'powi exponent')
+        n = conc(I, n, 'powi exponent')
         if n < 0 or n > 4:
             raise Unsupported('powi exponent %d' % n)
         r = 1.0
@@ -632,7 +632,7 @@ def install(M):
     reg('core::f64::<impl f64>::powi', f_powi)
 
     def u_pow(I, x, n):
-        conc(I, n, 'pow exponent')
+        n = conc(I, n, 'pow exponent')
         r = 1
         for _ in range(n):
             r = r * x if not is_sym(x) else (x if isinstance(r, int) and r == 1 else r * x)
@@ -650,7 +650,7 @@ def install(M):
 
     def s_windows(I, s, n):
         l, a, b = as_list(s)
-        conc(I, n, 'window size')
+        n = conc(I, n, 'window size')
         return ListIt([Slice(l, i, i + n) for i in range(a, b - n + 1)])
     pat(r'^core::slice::<impl \[.*\]>::windows$', s_windows)
 
